@@ -255,8 +255,8 @@ print("RESULT", type(r).__name__, r)
 
 @bounded("C18", "keypair_denylist_terminates_on_table_hits",
          bound="moduli whose 64 leading bits are a key of the shipped keypair table but that are NOT generator outputs: "
-               "3 table keys x bit lengths {2048, 2047, 1025, 4095, 64}: key << (bits - 64) | 1; each call of "
-               "CheckKeypairDenylist.Check in a subprocess with a 45 s limit (design finding F12 for odd bit lengths: "
+               "2 table keys x bit lengths {2048, 2047, 1025, 4095, 64}: key << (bits - 64) | 1; each call of "
+               "CheckKeypairDenylist.Check in its own subprocess, all concurrently, with a 45 s limit (design finding F12 for odd bit lengths: "
                "inputs.odd_bit_length_table_hit)",
          functions=["rsa_single_checks.CheckKeypairDenylist.Check", "keypair_generator.Generator.generate_key"],
          tier="thorough")
@@ -264,7 +264,7 @@ def keypair_termination(ctx):
   _lib()
   from paranoid_crypto.lib.data import default_storage
   table = default_storage.DefaultStorage().GetKeypairData().table
-  keys = sorted(table)[:: max(1, len(table) // 3)][:3]
+  keys = sorted(table)[:: max(1, len(table) // 2)][:2]
   verif = os.path.dirname(os.path.dirname(os.path.abspath(__file__)))
   jobs = []
   for tk in keys:
@@ -274,12 +274,14 @@ def keypair_termination(ctx):
       p = subprocess.Popen([sys.executable, "-c", _F12_SCRIPT % dict(verif=verif), str(n)], stdout=subprocess.PIPE,
                            stderr=subprocess.PIPE, text=True, env=dict(os.environ))
       jobs.append((tk, bits, p))
+  import time
+  deadline = time.time() + 45          # all subprocesses run concurrently and share one deadline
   for tk, bits, p in jobs:
     inp = dict(check="CheckKeypairDenylist", table_key=tk, bits=bits, batch_size=1,
                odd_bit_length_table_hit=bool(bits % 2))
     ctx.case(key=(tk, bits), sample=inp)
     try:
-      out, err = p.communicate(timeout=45)
+      out, err = p.communicate(timeout=max(0.5, deadline - time.time()))
       ctx.check("RESULT bool" in out, "CheckKeypairDenylist.Check returns a bool without raising",
                 dict(inp, outcome="exception" if p.returncode else "non-bool"), observed=(out + err)[-300:],
                 expected="a bool")
@@ -544,7 +546,7 @@ def ecdsa_bias_total(ctx):
 @bounded("C18", "ecdsa_lcg_checks_total",
          bound="CheckLCGNonceGMP, CheckLCGNonceJavaUtilRandom on the same batch family; where their lattice search is "
                "slow (Java LCG on the 256-bit curves, GMP on secp384r1: 0.5 s per 1-2 signatures, ~15 s per 7) quick runs "
-               "every 6th batch of size 1-2 and no 7-batch, thorough every batch of size <= 2 and every 9th 7-batch",
+               "every 10th batch of size 1-2 and no larger one, thorough every 2nd batch of size <= 2 and every 12th larger one",
          functions=["ecdsa_sig_checks.CheckLCGNonceGMP.Check", "ecdsa_sig_checks.CheckLCGNonceJavaUtilRandom.Check",
                     "hidden_number_problem.HiddenNumberProblemForCurve"])
 def ecdsa_lcg_total(ctx):
@@ -553,12 +555,17 @@ def ecdsa_lcg_total(ctx):
   slow = {"CheckLCGNonceJavaUtilRandom": {ids["CURVE_SECP256R1"], ids["CURVE_SECP256K1"]},
           "CheckLCGNonceGMP": {ids["CURVE_SECP384R1"]}}
   for chk in (sg.CheckLCGNonceGMP(), sg.CheckLCGNonceJavaUtilRandom()):
-    for bi, (label, sigs) in enumerate(batches):
+    seen_small = seen_large = 0
+    for label, sigs in batches:
       if sigs and any(s[0] in slow[chk.check_name] for s in sigs):
-        if len(sigs) >= 3 and (not ctx.thorough or bi % 9):
-          continue
-        if not ctx.thorough and bi % 6:
-          continue
+        if len(sigs) >= 3:
+          seen_large += 1
+          if not ctx.thorough or seen_large % 12 != 1:
+            continue
+        else:
+          seen_small += 1
+          if seen_small % (2 if ctx.thorough else 10) != 1:
+            continue
       _run_sig_check(ctx, pb, chk, label, sigs)
 
 
